@@ -70,6 +70,8 @@ PROPS["C09"] = {
     "runs": [
         R("mikey-total", "pkg/mikey", "pkg/mikey", ["ZzC09MikeyTotal"], flags={"concoff": True}, quick_params={"P": 24}, thorough_params={"P": 32}),
         R("session", "pkg/headers", "pkg/headers", ["ZzC09SessionRT", "ZzC09SessionTotal"], flags={"concoff": True, "qtimeout": 120000}, quick_params={"P": 8}, thorough_params={"P": 10}),
+        R("npt-exact", "pkg/headers", "pkg/headers", ["ZzC09RangeNPT"], flags={"qtimeout": 600000, "workers": 2}, quick_params={"KMAX": 255}, thorough_params={"KMAX": 2047}),
+        R("npt-ideal", "pkg/headers", "pkg/headers", ["ZzC09RangeNPT"], flags={"solver": "cvc5-int", "fpreal": True, "qtimeout": 300000, "workers": 2}, params={"KMAX": 1 << 30}),
         R("determinism", "pkg/headers", "pkg/headers", ["ZzC09TransportDeterministic", "ZzC09RangeDeterministic"], flags={"mapperm": True},
           quick_params={"NTOK": 2}, thorough_params={"NTOK": 3}, replay_repeat=400),
     ],
